@@ -260,7 +260,7 @@ def run_confirm(ctx, R, prog, b, sites, base, shares, text):
                 bydst.setdefault(P(ik, s["dst"]), set()).add(seedv[P(ik, s["src"])] if s["src"] else 1)
             for d, steps in sorted(bydst.items()):
                 delta = val(d) - seedv[d] if isinstance(val(d), (int, float)) and not isinstance(val(d), bool) else None
-                res.append(("inc", d, delta is not None and sums_to(delta, sorted(steps), 10 * max(4, len(g["insts"]))), val(d) != seedv[d], sorted(steps)))
+                res.append(("inc", d, delta is not None and sums_to(delta, sorted(steps), 40 * max(4, len(g["insts"]))), val(d) != seedv[d], sorted(steps)))
         elif op == "do":
             for p in s["pers"] + [io for src, io in s["fors"]]:
                 key = p["tail"] if p.get("defaultkey") else "k%d" % p["id"]
